@@ -232,6 +232,10 @@ Section Reader.
     mdo _ <- write_without_mac (set_slice mc1 2 [0]) 136 ;
     ret PTrue.
 
+  (* the card key version block that replaces the one read: version + 1, clamped to FFFFh *)
+  Definition lites_ckv_block (ckv : list Z) : list Z :=
+    le16 (Z.min (nth 0 ckv 0 + 256 * nth 1 ckv 0 + 1) 65535) ++ zeros 14.
+
   (* FelicaLiteS._protect.  The password is a byte string here.  repaired = false: the code as
      found, which calls .encode("ascii") on the password slice and so raises AttributeError for
      bytes/bytearray; repaired = true: fixes/c20-lites-protect-bytes.diff applied *)
@@ -251,8 +255,7 @@ Section Reader.
                   if negb repaired && negb (len p =? 0) then lift (Crash AttributeErr) else
                   let key := pw_key p in
                   mdo ckv <- read_without_mac [134] ;
-                  let v := Z.min (nth 0 ckv 0 + 256 * nth 1 ckv 0 + 1) 65535 in
-                  mdo _ <- write_without_mac (le16 v ++ zeros 14) 134 ;
+                  mdo _ <- write_without_mac (lites_ckv_block ckv) 134 ;
                   mdo _ <- write_without_mac (rev_halves key) 135 ;
                   mdo a <- lites_authenticate repaired key rc ;
                   if negb a then ret (mc, false) else
